@@ -240,7 +240,7 @@ fn call_size(rng: &mut Rng, w: u32, cap: usize) -> usize {
         2 => w.saturating_sub(1),
         3 => w,
         4 => w.saturating_add(1),
-        5 => w.saturating_mul(2).saturating_add(3),
+        5 => w.saturating_mul(*[2usize, 2, 3, 4][w % 4..].first().unwrap_or(&2)).saturating_add([3usize, 0, 0, 1][w % 4]),
         6 => rng.usize(0, 50),
         7 => rng.usize(0, (2 * w).max(1)),
         _ => rng.usize(0, 3000),
